@@ -334,39 +334,36 @@ def replay_large(arg):
 
 
 def large_jobs(ctx, d):
-    """TLC jobs on BuildersLarge.tla: (i) every size 2..16 (40), every family / pattern / container tag, with the
-    full-sum cross-checks; (ii) the large sizes, one job per size; (iii) the emitters"""
+    """TLC jobs on BuildersLarge.tla: (i) the large sizes, one job per size (closed forms checked and emitted);
+    (ii) every size 2..16 (40), every family / pattern / prior / container tag, with the full-sum cross-checks;
+    (iii) the emitter of the small replayed sizes"""
     lit = lambda xs: "{" + ", ".join(str(x) for x in xs) + "}"
     fams = "{" + ", ".join('"%s"' % f for f in FAMILIES) + "}"
     allp = list(range(1, NPATS + 1))
     jobs, emit = [], []
 
-    def job(name, sizes, pats, tags, emitting, priors=(0, 1), **kw):
+    def job(name, sizes, pats, tags, mode, priors=(0, 1), **kw):
         consts = dict(Sizes=lit(sizes), Families=fams, PatIds=lit(pats), Priors=lit(priors), Tags=tags, DenseMax="40",
-                      Emit="TRUE" if emitting else "FALSE")
-        if emitting:
-            cfg = core.write_cfg(os.path.join(d, name + ".cfg"), constants=consts, invariants=["EmitInv"])
-        else:
-            cfg = core.write_cfg(os.path.join(d, name + ".cfg"), constants=consts, invariants=LINVS,
-                                 properties=["CallerUnchanged"])
+                      Emit="FALSE" if mode == "check" else "TRUE")
+        cfg = core.write_cfg(os.path.join(d, name + ".cfg"), constants=consts,
+                             invariants=(LINVS if mode != "emit" else []) + (["EmitInv"] if mode != "check" else []),
+                             properties=["CallerUnchanged"] if mode != "emit" else [])
         jobs.append(dict(module="BuildersLarge", cfg=os.path.basename(cfg), cwd=d,
-                         label="large families %s n=%s patterns %s" % ("emit" if emitting else "check", lit(sizes)
-                                                                     if len(sizes) < 6 else "%d..%d" % (sizes[0], sizes[-1]),
-                                                                     lit(pats)), timeout=1500, **kw))
-        if emitting:
+                         label="large families %s n=%s patterns %s" % (mode, lit(sizes) if len(sizes) < 6 else
+                                                                     "%d..%d" % (sizes[0], sizes[-1]), lit(pats)),
+                         timeout=1500, **kw))
+        if mode != "check":
             emit.append(len(jobs) - 1)
-    both = '{"dense", "sparse"}'
-    job("ls", SMALL_CHECK[ctx.tier], allp, both, False, coverage=True, workers=4)
-    job("les", SMALL_REPLAY, [1 + ctx.seed % NPATS, 1 + (ctx.seed + 1) % NPATS] if ctx.tier == "quick" else allp,
-        '{"sparse"}', True, workers=1)
     for q, n in enumerate(LARGE_SIZES):
-        # quick: one pattern per size (rotating with the seed), thorough: all of them
+        # quick: one pattern per size (rotating with the seed), thorough: all of them.  The container tag and the
+        # prior are explored at every small size; here: one tag, and the prior (which densifies every container,
+        # so that no size-dependent path is left) at n = 1000 only.  One worker: the run that checks the closed
+        # forms is the run that emits them.
         pats = [1 + (q + ctx.seed) % NPATS] if ctx.tier == "quick" else allp
-        # the container tag and the prior are explored at every small size; here: one tag, and the prior (which
-        # densifies every container, so that no size-dependent path is left) at n = 1000 only
-        priors = (0, 1) if n == PRIOR_SIZE else (0,)
-        job("lc%d" % n, [n], pats, '{"dense"}', False, priors=priors, workers=3)
-        job("le%d" % n, [n], pats, '{"dense"}', True, priors=priors, workers=1)
+        job("l%d" % n, [n], pats, '{"dense"}', "check+emit", priors=(0, 1) if n == PRIOR_SIZE else (0,), workers=1)
+    job("ls", SMALL_CHECK[ctx.tier], allp, '{"dense", "sparse"}', "check", coverage=True, workers=4)
+    job("les", SMALL_REPLAY, [1 + ctx.seed % NPATS, 1 + (ctx.seed + 1) % NPATS] if ctx.tier == "quick" else allp,
+        '{"sparse"}', "emit", workers=1)
     return jobs, emit
 
 
@@ -432,9 +429,9 @@ def run(ctx):
                          coverage=True, workers=6))
         cfg = core.write_cfg(os.path.join(d, "e%d.cfg" % i), constants=dict(k, Emit="TRUE"), invariants=["EmitInv"])
         jobs.append(dict(module="Builders", cfg=os.path.basename(cfg), cwd=d, label="emit %s" % sc, workers=1))
-    nsmall = len(jobs)
     ljobs, lemit = large_jobs(ctx, d)
-    res = ctx.tlc_parallel(jobs + ljobs, max_par=14)
+    lres = ctx.tlc_parallel(ljobs + jobs)         # the long-running jobs first
+    res = lres[len(ljobs):]
     seen = set()
     for i, sc in enumerate(SCOPES[ctx.tier]):
         cases = []
@@ -466,6 +463,6 @@ def run(ctx):
             for key, detail in bad:
                 ctx.violation({"kind": "replay", "case": c, "detail": detail,
                                "how": "builders.%s vs Builders.tla" % c["builder"]}, key=key)
-    large_replay(ctx, [res[nsmall + i] for i in lemit])
+    large_replay(ctx, [lres[i] for i in lemit])
     from props import c12
     c12.mle_container_part(ctx)
